@@ -1114,12 +1114,14 @@ Definition create_join_tables (dc : decl) (if_not_exists : bool) (db : dbstate) 
 Definition create_indexes (dc : decl) (db : dbstate) : eres :=
   efold (fun db ix => eng_create_index db (index_name Sqlite dc ix) (table_of dc)) (d_indexes dc) db.
 
-(* main.createTable(ifNotExists=...) *)
-Definition create_table_op (dc : decl) (if_not_exists : bool) (db : dbstate) : eres :=
+(* main.createTable(ifNotExists=..., createJoinTables=..., createIndexes=...) *)
+Definition create_table_full (dc : decl) (if_not_exists cj ci : bool) (db : dbstate) : eres :=
   if if_not_exists && table_exists db (table_of dc) then (db, false)
   else ebind (eng_create db (table_of dc) (class_cols dc)) (fun db1 =>
-       ebind (create_join_tables dc if_not_exists db1) (fun db2 =>
-       create_indexes dc db2)).
+       ebind (if cj then create_join_tables dc if_not_exists db1 else (db1, false)) (fun db2 =>
+       if ci then create_indexes dc db2 else (db2, false))).
+Definition create_table_op (dc : decl) (if_not_exists : bool) (db : dbstate) : eres :=
+  create_table_full dc if_not_exists true true db.
 
 (* main.dropJoinTables / dropTable(ifExists=...) *)
 Definition drop_join_tables (dc : decl) (if_exists : bool) (db : dbstate) : eres :=
@@ -1127,9 +1129,12 @@ Definition drop_join_tables (dc : decl) (if_exists : bool) (db : dbstate) : eres
            let n := inter_table dc j in
            if if_exists && negb (table_exists db n) then (db, false) else eng_drop db n)
         (joins_to_create dc) db.
-Definition drop_table_op (dc : decl) (if_exists : bool) (db : dbstate) : eres :=
+(* main.dropTable(ifExists=..., dropJoinTables=...) *)
+Definition drop_table_full (dc : decl) (if_exists dj : bool) (db : dbstate) : eres :=
   if if_exists && negb (table_exists db (table_of dc)) then (db, false)
-  else ebind (eng_drop db (table_of dc)) (drop_join_tables dc if_exists).
+  else ebind (eng_drop db (table_of dc)) (fun db1 => if dj then drop_join_tables dc if_exists db1 else (db1, false)).
+Definition drop_table_op (dc : decl) (if_exists : bool) (db : dbstate) : eres :=
+  drop_table_full dc if_exists true db.
 
 (* ---------- schema evolution on the sqlite code path *)
 (* sqlite refuses ALTER TABLE ADD COLUMN for UNIQUE columns and, when the table
